@@ -13,6 +13,7 @@ import (
 	"os"
 	"path/filepath"
 	"strings"
+	"time"
 
 	"grol.io/grol/ast"
 	"grol.io/grol/eval"
@@ -31,7 +32,36 @@ var alphabet = []string{
 
 type stats struct{ panic_, errs, cont, tree int }
 
+var hung int
+
+// one runs oneInner under a watchdog: the front end must TERMINATE on every byte string.
 func one(c *Ctx, src []byte, lineMode bool, toModel bool, st *stats) {
+	if hung >= 3 { // each hung run keeps a core busy: stop exploring, the failures are recorded
+		return
+	}
+	done := make(chan struct{})
+	go func() {
+		defer close(done)
+		defer func() {
+			if r := recover(); r != nil {
+				c.Fail("harness-panic", "FRONT ? "+Hx(src), fmt.Sprint(r))
+			}
+		}()
+		oneInner(c, src, lineMode, toModel, st)
+	}()
+	select {
+	case <-done:
+	case <-time.After(20 * time.Second):
+		hung++
+		mode := "F"
+		if lineMode {
+			mode = "L"
+		}
+		c.Fail("front-end-does-not-terminate", fmt.Sprintf("FRONT %s %s", mode, Hx(src)), "lexing / parsing / printing still running after 20 s")
+	}
+}
+
+func oneInner(c *Ctx, src []byte, lineMode bool, toModel bool, st *stats) {
 	c.Eval()
 	mode := "F"
 	if lineMode {
@@ -272,6 +302,51 @@ func run(c *Ctx) {
 			one(c, mb, c.R.Bool(), i%4 == 0, &st)
 		}
 	}
+	// string literals: every kind of escape (complete, truncated, brace forms), raw bytes that are not UTF-8, long runs, both
+	// quote kinds, terminated and not, in positions where the parser quotes the token in an error message
+	pieces := []string{"a", "Z9", " ", "\\n", "\\\"", "\\\\", "\\x41", "\\x80", "\\xff", "\\x4", "\\x", "\\u263A", "\\u12", "\\u", "\\U0001F600", "\\U0001", "\\u{1F600}", "\\u{", "\\u{41", "\\q", "\\",
+		"\x80", "\xbf", "\xc3", "\xe2\x82", "\xff", "\xc3\xa9", "\xe6\x97\xa5", "\x00", "\n", "\r", "`", "}"}
+	ctxs := []string{"x = %s", "(1 %s", "[1 %s]", "%s => 1", "f(%s", "%s", "{%s:1", "a %s b", "if %s {", "// c\n%s"}
+	mkstr := func(body string, k int) string {
+		switch k % 4 {
+		case 0:
+			return "\"" + body + "\""
+		case 1:
+			return "\"" + body // unterminated
+		case 2:
+			return "`" + body + "`"
+		default:
+			return "`" + body
+		}
+	}
+	nstr := 0
+	for pi, pc := range pieces {
+		for _, rep := range []int{1, 2, 33, 65, 70, 130, 300} {
+			body := strings.Repeat(pc, rep)
+			for k := 0; k < 4; k++ {
+				lit := mkstr(body, k)
+				for ci, cx := range ctxs {
+					if rep > 2 && (ci+pi+k)%3 != 0 {
+						continue
+					}
+					src := []byte(fmt.Sprintf(cx, lit))
+					one(c, src, false, rep <= 2 && len(src) < 40, &st)
+					one(c, src, true, false, &st)
+					nstr++
+				}
+			}
+		}
+	}
+	for i := 0; i < 1500; i++ {
+		var body string
+		for j := 0; j < 1+c.R.Intn(6); j++ {
+			body += pieces[c.R.Intn(len(pieces))]
+		}
+		src := []byte(fmt.Sprintf(ctxs[c.R.Intn(len(ctxs))], mkstr(body, c.R.Intn(4))))
+		one(c, src, c.R.Bool(), i%5 == 0, &st)
+		nstr++
+	}
+	c.Dist["string-literal-inputs"] = nstr
 	// deep nesting: every block / bracket construct nested in itself and alternating, depth 1..48 (indentation levels,
 	// recursion depth of the printer), complete and cut short
 	openers := []struct{ o, c string }{{"func(){", "}"}, {"if true {", "}"}, {"for a {", "}"}, {"() => {", "}"}, {"[", "]"}, {"(", ")"}, {"{1:", "}"}, {"if a {1} else {", "}"}, {"f(", ")"}, {"m = macro(x){", "}"}}
